@@ -605,11 +605,21 @@ func (r *runner) settle(f *fileW) {
 				return
 			}
 		}
-		if len(list) == 1 || len(list) > 4 {
+		if len(list) == 1 {
 			for _, x := range list {
 				r.modelOp(f, x, r.wakeThread(x))
 			}
 			continue
+		}
+		if len(list) > 6 {
+			// More simultaneous wake-ups than orders worth trying (7! and up): which order the Go
+			// scheduler picks is not determined, and asserting the list order would be a false
+			// alarm (a thorough shard with five parked mutators was reported that way while the
+			// limit was four).  The history is not compared any further; the monitors still judge it.
+			r.out.flags["multi-wake-too-many"] = true
+			r.out.aborted = true
+			r.stopCmp = true
+			return
 		}
 		r.out.flags["multi-wake"] = true
 		r.ask("save")
@@ -2098,6 +2108,12 @@ func TestHarness(t *testing.T) {
 		}
 		min := hx.Shrink(ops, fails)
 		r := runHistory(t, min, drv, false, nil)
+		if r.monitor == "" && r.mismatch == "" {
+			// the minimised history does not fail when run again: nothing that could serve as a
+			// replay (seen with scheduler-order dependent wake-ups); counted, not reported
+			res.Count("unreproducible-after-shrinking")
+			return
+		}
 		f := hx.Finding{Property: prop, History: min}
 		if r.monitor != "" && hangsOnly {
 			f.Kind, f.What, f.Name = "violation", r.monitor, prop+" "+hangName
